@@ -172,6 +172,9 @@ func genAmount(t *rapid.T, bal *big.Int, label string) *big.Int {
 	}
 }
 
+var lateTypes = map[types.TxType]bool{types.ActivationTx: true, types.ChangeGodAddressTx: true, types.DelegateTx: true, types.DeleteFlipTx: true, types.KillDelegatorTx: true, types.KillTx: true,
+	types.KillInviteeTx: true, types.OnlineStatusTx: true, types.ReplenishStakeTx: true, types.InviteTx: true, types.SubmitFlipTx: true, types.UndelegateTx: true}
+
 var rareTypes = []types.TxType{types.KillInviteeTx, types.KillDelegatorTx, types.UndelegateTx, types.ActivationTx, types.DeleteFlipTx, types.CallContractTx, types.TerminateContractTx}
 
 // GenTx draws one signed transaction against the replica's current head state.
@@ -183,6 +186,18 @@ func (w *World) GenTx(t *rapid.T, r *Replica, only []types.TxType) (*types.Trans
 	pool := allTxTypes
 	if len(only) > 0 {
 		pool = only
+		if p := st.ValidationPeriod(); (p == state.FlipLotteryPeriod || p == state.ShortSessionPeriod) && rapid.IntRange(0, 4).Draw(t, "ceremonialOnly") != 4 {
+			// the pool refuses everything but ceremony transactions in these periods
+			var cer []types.TxType
+			for _, x := range only {
+				if x == types.SubmitAnswersHashTx || x == types.SubmitShortAnswersTx || x == types.SubmitLongAnswersTx || x == types.EvidenceTx {
+					cer = append(cer, x)
+				}
+			}
+			if len(cer) > 0 {
+				pool = cer
+			}
+		}
 	} else {
 		switch st.ValidationPeriod() {
 		case state.FlipLotteryPeriod, state.ShortSessionPeriod:
@@ -194,6 +209,18 @@ func (w *World) GenTx(t *rapid.T, r *Replica, only []types.TxType) (*types.Trans
 			if rapid.IntRange(0, 2).Draw(t, "ceremonialOnly") == 0 {
 				pool = []types.TxType{types.SubmitAnswersHashTx, types.SubmitShortAnswersTx, types.SubmitLongAnswersTx, types.EvidenceTx, types.SendTx}
 			}
+		}
+	}
+	if st.ValidationPeriod() != state.NonePeriod && rapid.IntRange(0, 4).Draw(t, "skipLateTypes") != 4 {
+		// these types are refused as "late" for the whole ceremony: offer them rarely there
+		var rest []types.TxType
+		for _, x := range pool {
+			if !lateTypes[x] {
+				rest = append(rest, x)
+			}
+		}
+		if len(rest) > 0 {
+			pool = rest
 		}
 	}
 	typ := pool[rapid.IntRange(0, len(pool)-1).Draw(t, "txType")]
@@ -301,7 +328,22 @@ func (w *World) GenTx(t *rapid.T, r *Replica, only []types.TxType) (*types.Trans
 		tx.Payload = attachments.CreateStoreToIpfsAttachment(testCid(2, rapid.IntRange(0, 3).Draw(t, "ipfsCid")), uint32(rapid.SampledFrom([]int{0, 1, 1000, 1 << 20}).Draw(t, "ipfsSize")))
 		info.Rel = "none"
 	case types.SubmitFlipTx:
-		tx.Payload = attachments.CreateFlipSubmitAttachment(testCid(sender.Addr[0], rapid.IntRange(0, 5).Draw(t, "flipNo")), uint8(rapid.IntRange(0, 12).Draw(t, "pair")))
+		// mostly a fresh cid and a word pair the identity has not used yet (what a client does), sometimes a clash
+		flipNo, pair := rapid.IntRange(0, 5).Draw(t, "flipNo"), rapid.IntRange(0, 12).Draw(t, "pair")
+		if rapid.IntRange(0, 4).Draw(t, "clashingFlip") != 0 {
+			used := map[uint8]bool{}
+			for _, f := range id.Flips {
+				used[f.Pair] = true
+			}
+			flipNo = int(epoch)*16 + len(id.Flips) + flipNo%2
+			for p := 0; p < 30; p++ {
+				if !used[uint8(p)] {
+					pair = p
+					break
+				}
+			}
+		}
+		tx.Payload = attachments.CreateFlipSubmitAttachment(testCid(sender.Addr[0], flipNo), uint8(pair))
 		info.Rel = "none"
 	case types.DeleteFlipTx:
 		cid := testCid(sender.Addr[0], rapid.IntRange(0, 5).Draw(t, "flipNo"))
